@@ -3,6 +3,7 @@ vm_compute) versus a live handshake between two real TLSConnection objects (harn
 A pair with compatible = true whose handshake fails is a violation (the pair is the replay);
 compatible = false pairs that connect are fine and only counted."""
 import multiprocessing
+import os
 import random
 
 import vlib
@@ -10,6 +11,7 @@ import c19_model as M
 
 KNOWN = [(3, 0), (3, 1), (3, 2), (3, 3), (3, 4)]
 CREDS = {'rsa': ('rsa', None), 'ecdsa': ('ecdsa', 'secp256r1')}
+RUN = '_%d' % os.getpid()     # concurrent C19 runs must not share coq/_cases file names
 IMPORTS = ['Gen.SettingsTables', 'Model.C19_Settings', 'Model.C19_Repo', 'Spec.C19_Domain', 'Spec.C19_Compat']
 PREAMBLE = '''
 Definition PairT := ((heap * settings) * (heap * settings) * cred)%type.
@@ -138,10 +140,10 @@ def directed_pairs():
         ('client requires EMS, TLS 1.2', 'rsa', {'requireExtendedMasterSecret': True, 'maxVersion': (3, 3)}, {}),
         ('small record_size_limit + HelloRetryRequest', 'rsa', {'keyShares': []}, {'record_size_limit': 64}),
         ('small record_size_limit', 'rsa', {}, {'record_size_limit': 64}),
-        ('ticket key too short for chacha20-poly1305, TLS 1.3', 'rsa', {},
-         {'ticketCipher': 'chacha20-poly1305', 'ticketKeys': [bytearray(16)]}),
-        ('ticket key too short for chacha20-poly1305, TLS 1.2', 'rsa', {'maxVersion': (3, 3)},
-         {'ticketCipher': 'chacha20-poly1305', 'ticketKeys': [bytearray(16)]}),
+        ('chacha20-poly1305 tickets with a fitting key, TLS 1.3', 'rsa', {},
+         {'ticketCipher': 'chacha20-poly1305', 'ticketKeys': [bytearray(32)]}),
+        ('aes128gcm tickets with a fitting key, TLS 1.2', 'rsa', {'maxVersion': (3, 3)},
+         {'ticketCipher': 'aes128gcm', 'ticketKeys': [bytearray(16)]}),
         ('client without (EC)DHE key exchanges still offers TLS 1.3', 'rsa', {'keyExchangeNames': ['rsa']}, {}),
         ('TLS 1.2 only, CBC only', 'rsa', {'maxVersion': (3, 3), 'cipherNames': ['aes128'], 'macNames': ['sha']}, {}),
         ('TLS 1.0 only', 'ecdsa', {'maxVersion': (3, 1)}, {}),
@@ -197,7 +199,11 @@ def reason(o):
     for d in o['detail']:
         m = re.search(r"TLSLocalAlert\(Alert\([^)]*\), (?:'([^']*)'|\"([^\"]*)\"|None)", d or '')
         if m:
-            msg = m.group(1) or m.group(2) or 'no message'
+            msg = m.group(1) or m.group(2)
+            if not msg:
+                from tlslite.constants import AlertDescription
+                n = re.search(r'description=(\d+)', d)
+                msg = 'no message ' + (AlertDescription.toRepr(int(n.group(1))) if n else '')
             return re.sub(r'[^A-Za-z]+', '-', msg).strip('-')[:48]
     return 'no-local-alert'
 
@@ -219,7 +225,7 @@ def run_pairs(ctx, found, model_ok):
             V(ctx, found, 'pair-harness-error:%s' % cls(o['client']), 'pair could not be run: %s' % (o['server'],),
               {'pair': pairs[i], 'detail': o['detail']}, found_input=False)
     lits = [outs[i]['lit'] for i in idx]
-    (nc, nca), errs = vlib.coq_bad_indices('C19p', IMPORTS, 'PairT', ['not_compat', 'not_compat_any'], lits,
+    (nc, nca), errs = vlib.coq_bad_indices('C19p' + RUN, IMPORTS, 'PairT', ['not_compat', 'not_compat_any'], lits,
                                            shard=max(4, (len(lits) + 15) // 16) if quick else 50, preamble=PREAMBLE)
     for e in errs:
         V(ctx, found, 'tie-broken:pairs', 'evaluation of `compatible` failed: ' + e[:300], {'detail': e[:2000]}, found_input=False)
